@@ -13,8 +13,38 @@ def export(cfg, name):
 def twins(v):
     """the same history with every flavour sync / with no archive round trips (same id: same formats, relationships, thumbnails)"""
     s = dict(v, ops=[dict(o, fl="sync") for o in v["ops"]], twin="sync")
-    p = dict(v, ops=[dict(o, arch=0) for o in v["ops"]], twin="plain")
+    p = dict(v, ops=[dict(o, arch=0) if o["op"] == "S" else o for o in v["ops"]], twin="plain")     # (for reads, arch encodes the trust profile)
     return s, p
+
+
+
+def diff_paths(v, twin, i, field):
+    """re-run a history and its twin with full texts and name the parts of the report that differ (indices and names dropped)"""
+    try:
+        pr = vh(["wf-run", "--no-fresh", "--full"], stdin="\n".join(json.dumps({"id": x["id"], "ops": x["ops"]}) for x in (v, twin)), timeout=600)
+        a, b = [json.loads(l) for l in pr.stdout.splitlines() if l.strip()]
+        key = "content_text" if field == "content" else "norm_text"
+        ja, jb = json.loads(a["assets"][i][key]), json.loads(b["assets"][i][key])
+    except Exception:
+        return "?"
+    out = set()
+    def walk(x, y, path):
+        if isinstance(x, dict) and isinstance(y, dict):
+            for k in set(x) | set(y):
+                kk = re.sub(r"<m:[^>]*>", "<m>", k)
+                if k not in x or k not in y:
+                    out.add(path + "." + kk + ("(missing)" if k not in x else "(extra)"))
+                else:
+                    walk(x[k], y[k], path + "." + kk)
+        elif isinstance(x, list) and isinstance(y, list):
+            if len(x) != len(y):
+                out.add(path + "[len]")
+            for p, q in zip(x, y):
+                walk(p, q, path + "[]")
+        elif x != y:
+            out.add(path)
+    walk(ja, jb, "")
+    return ",".join(sorted(out))[:160] or "?"
 
 
 def pipeline(ctx, fresh=True):
@@ -31,13 +61,13 @@ def pipeline(ctx, fresh=True):
         if not (x.violated and ("Invariant %s is violated" % w) in x.out):
             raise ToolError("vacuity witness %s not reachable" % w)
     vecs = export("MC_Workflow_emit.cfg", "wf_emit")
-    if len(vecs) < 10000:
+    if len(vecs) < 20000:
         raise ToolError("history export too small: %d" % len(vecs))
     ctx.rng.shuffle(vecs)
     # prefer histories that exercise something: an ingredient, an archive round trip, an async call, a tamper
     def weight(v):
         ops = v["ops"]
-        return sum(1 for o in ops if o["op"] == "S" and o["ings"]) + sum(1 for o in ops if o["arch"]) + sum(1 for o in ops if o["op"] == "T") + (1 if any(o["op"] == "L" for o in ops) else 0)
+        return sum(1 for o in ops if o["op"] == "S" and o["ings"]) + sum(1 for o in ops if o["arch"] and o["op"] == "S") + sum(1 for o in ops if o["op"] == "T") + (1 if any(o["op"] == "L" for o in ops) else 0)
     n = 300 if ctx.quick else 2400
     # half uniformly from all histories, half from the histories that combine the most features
     uniform = vecs[: n // 2]
@@ -68,7 +98,7 @@ def pipeline(ctx, fresh=True):
         s, p = twins(v)
         if any(o["fl"] == "async" for o in v["ops"]):
             runs.append(s)
-        if any(o["arch"] for o in v["ops"]):
+        if any(o["arch"] for o in v["ops"] if o["op"] == "S"):
             runs.append(p)
     # the histories are independent: split them over harness processes (each result keeps the order of its chunk)
     import concurrent.futures as cf
@@ -134,7 +164,8 @@ def pipeline(ctx, fresh=True):
             for tw, pp, label, field in (("plain", "C22", "restore-differs", "content"), ("sync", "C40", "async-differs", "norm")):
                 t = by.get((v["id"], tw))
                 if t and t[1]["completed"] and i < len(t[1]["assets"]) and t[1]["assets"][i].get(field) != d.get(field):
-                    findings.append((pp, "%s:%s" % (label, made.get("fmt", "?")), "asset %d: the normalised report differs from the one produced %s" % (i + 1, "without archive round trips" if tw == "plain" else "through the synchronous entry points"), dict(case, twin=tw)))
+                    where = diff_paths(v, t[0], i, field)
+                    findings.append((pp, "%s:%s" % (label, where), "asset %d: the normalised report differs from the one produced %s (differing parts: %s; format %s)" % (i + 1, "without archive round trips" if tw == "plain" else "through the synchronous entry points", where, made.get("fmt", "?")), dict(case, twin=tw, differs_at=where)))
         for f in o["ing_facts"]:
             if f["a"] > 0:
                 d = o["assets"][f["parent"] - 1]
@@ -155,12 +186,24 @@ def pipeline(ctx, fresh=True):
                     findings.append(("C38", "fresh-process-differs", "asset %d read in a fresh process gives a different report" % fr["i"], dict(case0, asset=fr["i"])))
         elif o["fresh"] is not None:
             raise ToolError("fresh-process read failed: %s" % o["fresh"])
+        # reads under a trust profile: the state comes from the reading context alone, and equal (asset, profile) reads agree
+        seen_pf = {}
+        for s in o["steps"]:
+            if s["op"] == "R" and "err" not in (s.get("err") or {}) and s.get("state") is not None:
+                kind = next((st for st in o["steps"] if st.get("asset") == s["i"]), {}).get("op")
+                exp = "Invalid" if kind == "T" else ("Valid" if s.get("profile") == 1 else "Trusted")
+                if s["state"] != exp:
+                    findings.append(("C38", "profile-leak:%s-read-reports-%s" % ({0: "std", 1: "lean", 2: "rich"}.get(s.get("profile"), "?"), s["state"]), "a read of asset %d under the %s trust profile reports %s (expected %s): settings of another context leaked" % (s["i"], {0: "standard", 1: "lean", 2: "rich"}.get(s.get("profile")), s["state"], exp), dict(case0, step={k: s.get(k) for k in ("i", "fl", "profile", "state")})))
+                k2 = (s["i"], s.get("profile"))
+                if k2 in seen_pf and seen_pf[k2] != s.get("norm"):
+                    findings.append(("C38", "read-differs:same-profile", "two reads of asset %d under the same trust profile differ within one history" % s["i"], dict(case0, step={k: s.get(k) for k in ("i", "fl", "profile", "state")})))
+                seen_pf.setdefault(k2, s.get("norm"))
         for s in o["steps"]:
             if s["op"] == "R" and not s["same_as_first"]:
                 findings.append(("C40" if s["fl"] == "async" else "C38", "read-differs:%s" % s["fl"], "read of asset %d inside the history differs from its first read" % s["i"], dict(case0, step=s)))
-    stats = {"histories": len(sample), "runs": len(runs), "assets_compared": nassets,
+    stats = {"with_profiles": sum(1 for v in sample if any(o["op"] == "R" and o["arch"] for o in v["ops"])), "histories": len(sample), "runs": len(runs), "assets_compared": nassets,
              "with_ingredients": sum(1 for v in sample if any(o["op"] == "S" and o["ings"] for o in v["ops"])),
-             "with_archive": sum(1 for v in sample if any(o["arch"] for o in v["ops"])),
+             "with_archive": sum(1 for v in sample if any(o["arch"] for o in v["ops"] if o["op"] == "S")),
              "with_async": sum(1 for v in sample if any(o["fl"] == "async" for o in v["ops"])),
              "with_tamper": sum(1 for v in sample if any(o["op"] == "T" for o in v["ops"])),
              "with_legacy": sum(1 for v in sample if any(o["op"] == "L" for o in v["ops"])),
